@@ -4,6 +4,8 @@ Require Extraction.
 Require Import ExtrOcamlBasic.
 From RxModel Require Import Derived Ops2 Subject GroupBy Flatten Timed Async Subscr Finalize Fin Pipe Indep Share Convert Conc Ileave.
 From RxSpec Require Import DerivedSpec Ops2Spec SubjectSpec BehaviorSpec GroupBySpec FlattenSpec FlattenItems TimedSpec SubscrSpec FinalizeSpec IleaveSpec.
+(* the hypotheses of the interleaving theorems are computable predicates on cases: the runner evaluates them on every case *)
+From RxProofs Require Import IleaveInv IleaveLaws.
 Extraction Language OCaml.
 Extraction "model.ml"
   apply_fn apply_fn2 pred_of opt_of
@@ -22,5 +24,6 @@ Extraction "model.ml"
   run_share
   next_prog subscribe_prog unsubscribe_prog complete_prog probe_cell shared_tail acquisitions
   run_future run_stream wrun waiter_safe w_flag
+  names_ok setup_completes unsubs_ok
   Ileave.run_case ileave_ok latest_ok joiner_ok no_overlap no_panic grammar_ok quiet_after_unsub values_ok common_order_ok full_time_sees_all nothing_lost
   sub_runs nested_run lscript factory_calls is_iter calls_after.
